@@ -382,6 +382,84 @@ def hasIncDec : Expr → Bool
   | .bin _ l r => hasIncDec l || hasIncDec r
   | .cond c t e => hasIncDec c || hasIncDec t || hasIncDec e
 
+/-! ## which failure is reported (tree level) -/
+
+/-- the leaf causes an evaluation can fail with, in the Spec's terms -/
+inductive Fail where
+  | value                 -- a variable that is READ does not hold an integer constant
+  | reason (r : Reason)   -- an operation has no value (`why`)
+  | notLvalue             -- `++ -- = op=` applied to something that is not a variable
+  deriving DecidableEq, Repr
+
+/-- The causes ISO C / POSIX admit for the failure of `e` in `env`; `[]` = `e` has a value.
+    C does not order the evaluation of the operands of an operator without sequence point (6.5p2-3: unsequenced;
+    POSIX 2.6.4 refers to C), so when several operands fail EVERY one of their causes is admissible, in any
+    order; only `|| && ?:` are sequenced: the left operand / the condition first, the unselected operand never.
+    An operation's own cause (`why`, an unreadable compound-assignment target) is admissible only when all its
+    operands have values.  Independent of the evaluation order of the code (which reports: left subtree, right
+    subtree, then the left VALUE read, the right value read, then the operation). -/
+def fails : Expr → Env → List Fail
+  | .num _, _ => []
+  | .var x, env => if (readVar env x).isNone then [.value] else []
+  | .pre op e, env =>
+    match op with
+    | .Increment | .Decrement =>
+      match e with
+      | .var x =>
+        match readVar env x with
+        | none => [.value]
+        | some v => if (represent (if op = .Increment then v + 1 else v - 1)).isNone then [.reason .unrepresentable] else []
+      | _ => .notLvalue :: fails e env
+    | .NumericNegation =>
+      match fails e env, evalExact e env with
+      | [], some (v, _) => if (represent (-v)).isNone then [.reason .unrepresentable] else []
+      | fe, _ => fe
+    | _ => fails e env
+  | .post op e, env =>
+    match e with
+    | .var x =>
+      match readVar env x with
+      | none => [.value]
+      | some v => if (represent (if op = .Increment then v + 1 else v - 1)).isNone then [.reason .unrepresentable] else []
+    | _ => .notLvalue :: fails e env
+  | .bin op l r, env =>
+    if op = .LogicalOr ∨ op = .LogicalAnd then
+      match fails l env, evalExact l env with
+      | [], some (a, env1) => if (op = .LogicalOr ∧ a ≠ 0) ∨ (op = .LogicalAnd ∧ a = 0) then [] else fails r env1
+      | fl, _ => fl
+    else
+      match kindOf op with
+      | .plain =>
+        let fl := fails l env
+        let fr := fails r (match evalExact l env with | some (_, env1) => env1 | none => env)
+        if fl.isEmpty ∧ fr.isEmpty then
+          match evalExact l env with
+          | some (a, env1) =>
+            match evalExact r env1 with
+            | some (b, _) => match why (arithOf op) a b with | some q => [.reason q] | none => []
+            | none => []
+          | none => []
+        else fl ++ fr
+      | .assign =>
+        match l with
+        | .var _ => fails r env
+        | _ => .notLvalue :: (fails l env ++ fails r env)
+      | .compound =>
+        match l with
+        | .var x =>
+          let fx : List Fail := if (readVar env x).isNone then [.value] else []
+          let fr := fails r env
+          if fx.isEmpty ∧ fr.isEmpty then
+            match readVar env x, evalExact r env with
+            | some a, some (b, _) => match why (arithOf op) a b with | some q => [.reason q] | none => []
+            | _, _ => []
+          else fx ++ fr
+        | _ => .notLvalue :: (fails l env ++ fails r env)
+  | .cond c t e, env =>
+    match fails c env, evalExact c env with
+    | [], some (a, env1) => if a ≠ 0 then fails t env1 else fails e env1
+    | fc, _ => fc
+
 /-! ## text: maximal-munch lexer and grammar-directed parser -/
 
 inductive SToken where
